@@ -428,4 +428,32 @@ PROPS = {
                 "1 built binary probed with ~120 names",
         "trusted": [],
     },
+    "C18": {
+        "harness": "c18",
+        "imports": ["Base", "Agent", "AgentProofs", "Check18"],
+        "case_type": "c18_case",
+        "check": "c18_check",
+        "diag": "c18_diag",
+        "theories": ["theories/Base.v", "theories/Agent.v", "theories/AgentProofs.v"],
+        "check_theories": ["theories/Check18.v"],
+        "level_text": "Coq theorems over the model of one keep-alive round (a function from the node's peer list and the "
+                      "pool's replies to the list of calls made): the peers un-trusted and disconnected are exactly the "
+                      "pool-declared invalid ones plus, with strict peering, the local peers the pool does not list as "
+                      "active under the same host (hosts compared, ports never), each gets both calls, nobody else; a "
+                      "shortfall causes exactly one Peer request for target - |active| hosts of the node's own kind "
+                      "(any kind for a full node) and none otherwise; every returned host is connected to; a failed "
+                      "keep-alive makes no call on the node; all of it for every round of a multi-round history. Tied "
+                      "to the code by running the real Agent (Start, then UpdatePeers) against a recording fake "
+                      "EthNode and a scripted pool and comparing, in-kernel, the exact call sequence and result class "
+                      "of every round with the model's.",
+        "level_note": "Trusted: Coq kernel; enode string parsing (net/url, ethnode.ParseNodeURI) reaches the model as "
+                      "(parsed?, id, remote host) computed by the same library calls the agent makes.",
+        "technique": "Coq proof over a call-log model + vm_compute correspondence against the real Agent",
+        "rule": "1-4 rounds per case; 0-6 local peers (pubkey ids, hash id + enode, short enode, unparsable address; "
+                "addresses IPv4/IPv6/loopback/unspecified/localhost/name/none, same host different port), pool "
+                "active/invalid lists as ids, enode URIs with and without address, often echoing the local peers; "
+                "strict on/off, targets 0-6, full/light node, geth/parity; pool update error, node error, failing "
+                "drop calls, Peer reply ok/no-peers/failure, ConnectPeer failing at a position",
+        "trusted": [],
+    },
 }
